@@ -702,7 +702,7 @@ PROPS = {
         prop_file="Properties/C05.v",
         check_module="C05Check",
         theorems={t: [] for t in ["C05_ledger_invariant", "C05_oom_only_when_full", "C05_bounded_live_never_oom",
-                                  "C05_refused_not_charged", "C05_clear_is_fresh", "C05_gc_complete"]},
+                                  "C05_refused_not_charged", "C05_clear_is_fresh", "C05_gc_complete", "C05_oom_only_when_reachable_full", "C05_reachable_fits_never_oom", "C05_live_bytes_counts"]},
         n_quick=60, n_thorough=600,
         gates=["trace.alloc_refused", "trace.run_ended_OutOfMemory", "trace.collected>2",
                "trace.collection_released_something", "gc_case.mid_run", "prog=string_churn", "prog=closures"],
